@@ -200,6 +200,15 @@ func TestC12Run(t *testing.T) {
 		}
 		patterns = append(patterns, sb.String())
 	}
+	// long patterns (thousands of bytes: generated alternations, as scripts produce them); the alternative that decides
+	// stands at the very end, so a pattern cut short on its way selects differently
+	for _, n := range []int{120, 450, 900} {
+		var sb strings.Builder
+		for k := 0; k < n; k++ {
+			fmt.Fprintf(&sb, "id%05dz|", k)
+		}
+		patterns = append(patterns, sb.String()+"a", sb.String()+"(:|=)$")
+	}
 	var recs []c12Rec
 	skipped := 0
 	id := 0
@@ -239,10 +248,24 @@ func TestC12Mapr(t *testing.T) {
 		Note     string `json:"note"`
 	}
 	var out []res
-	for round := 0; round < 3; round++ {
+	for round := 0; round < 4; round++ {
 		n := 5 + rng.Intn(40)
 		var sb strings.Builder
 		expected := 0
+		query := "select count($line) group by $hostname"
+		if round == 3 {
+			// "from STATS": the table is selected by the regex the mapreduce client sends with its cat command; lines of
+			// another table in the same file must not be counted
+			query = "select count($line) from STATS group by $hostname"
+			for i := 0; i < n; i++ {
+				table := []string{"STATS", "OTHER", "STATS", "STATSX"}[i%4]
+				fmt.Fprintf(&sb, "INFO|20211002-071209|1|c12.go:1|8|14|7|0.21|471h0m21s|MAPREDUCE:%s|foo=%d\n", table, i)
+				if table == "STATS" {
+					expected++
+				}
+			}
+			n = 0
+		}
 		for i := 0; i < n; i++ {
 			l := 1 + rng.Intn(100)
 			if i == n/2 {
@@ -255,7 +278,7 @@ func TestC12Mapr(t *testing.T) {
 		p := filepath.Join(dir, fmt.Sprintf("m%d.log", round))
 		os.WriteFile(p, []byte(sb.String()), 0644)
 		r := res{Lines: n, Expected: expected}
-		args := config.Args{ConfigFile: "none", Serverless: true, What: p, QueryStr: "select count($line) group by $hostname",
+		args := config.Args{ConfigFile: "none", Serverless: true, What: p, QueryStr: query,
 			Quiet: true, Plain: round%2 == 0, NoColor: true, UserName: "vuser", Mode: omode.MapClient, ConnectionsPerCPU: 10}
 		r.Output = c12Capture(func() {
 			defer func() {
